@@ -14,7 +14,7 @@ TiesLang). On the wire model this is:
  * the dynamic tag-based API and the generated accessors are the same functions of the bytes by
    construction (`M.field tag` then the decoder), so they are interchangeable on the same bytes.
 Enums are int32 on the wire (`SVal.enum`), nested messages, lists and structs are covered by C01's
-theorems for arbitrary `Delim` values. float32 is excluded here (see C10.float32_roundtrip_partial).
+theorems for arbitrary `Delim` values. float32 is excluded here (see C10.float32_roundtrip / float32_snan_quieted).
 -/
 import SpecVerif.Props.C01
 import SpecVerif.Props.C10
